@@ -628,6 +628,189 @@ def _proxy_events(r, th, keys256):
     return evs
 
 
+
+# ------------------------------------------------------------------ key objects of every provenance (worker)
+def _record_prov_curve(a):
+    """The encoders fed with VerifyingKey objects whose point is held in different internal representations: affine,
+    Jacobian with z != 1 (constructed, k*Q, Q+G, keys recovered from a signature), fresh and after operations that may
+    rescale the point in place (verify, scale(), x()).  Expected coordinates come from integer arithmetic
+    (harness/c19points.py) on the affine generator; the encodings are judged like every other "pt" / "enc" / "pem" event."""
+    cname, d, sd = a
+    from hashlib import sha256
+    from register_crypto_plugin.ecdsa.ellipticcurve import Point, PointJacobi
+    from .. import c19points as cp
+    ecdsa, SigningKey, VerifyingKey, der, curves = _lib()
+    c = _curve(cname)
+    on, L, p, ca = c.openssl_name, _flen(c), c.curve.p(), c.curve.a() % c.curve.p()
+    r = random.Random(sd)
+    G = (int(c.generator.x()), int(c.generator.y()))
+    Q = cp._mul(d, G, ca, p)
+    k = r.randrange(3, 1 << 24)
+    kQ, QG = cp._mul(k, Q, ca, p), cp._add(Q, G, ca, p)
+    sk = SigningKey.from_secret_exponent(d, c)
+    data = b"provenance of a key object"
+    sig = sk.sign(data, hashfunc=sha256)
+    dig = sha256(data).digest()
+
+    def jac(z):
+        return lambda: VerifyingKey.from_public_point(PointJacobi(c.curve, Q[0] * z * z % p, Q[1] * z * z * z % p, z), c)
+    # recovered keys: their coordinates are read from a separate recovery through x() / y() (which do not rescale)
+    rec_xy = [(int(v.pubkey.point.x()), int(v.pubkey.point.y())) for v in VerifyingKey.from_public_key_recovery(sig, data, c, hashfunc=sha256)]
+    fac = [("affine", Q, lambda: VerifyingKey.from_public_point(Point(c.curve, Q[0], Q[1]), c)),
+           ("jacobian z=2", Q, jac(2)), ("jacobian z=p-1", Q, jac(p - 1)), ("jacobian z=random", Q, jac(r.randrange(3, p - 1))),
+           ("k*Q", kQ, lambda: VerifyingKey.from_public_point(k * PointJacobi.from_affine(Point(c.curve, Q[0], Q[1])), c)),
+           ("Q+G", QG, lambda: VerifyingKey.from_public_point(PointJacobi.from_affine(Point(c.curve, Q[0], Q[1])) + c.generator, c))]
+    for i, xy in enumerate(rec_xy):
+        fac.append(("recovered[%d]" % i, xy, lambda i=i: VerifyingKey.from_public_key_recovery(sig, data, c, hashfunc=sha256)[i]))
+        fac.append(("recovered-with-digest[%d]" % i, xy, lambda i=i: VerifyingKey.from_public_key_recovery_with_digest(sig, dig, c, hashfunc=sha256, allow_truncate=True)[i]))
+    evs = []
+    if Q not in rec_xy:
+        evs.append({"op": "pt", "curve": on, "key": "provenance: no recovered key is the signer's key", "pub": list(Q[0].to_bytes(L, "big") + Q[1].to_bytes(L, "big")),
+                    "pe": "raw", "enc": [], "dok": False, "dpub": [], "_cost": 1})
+
+    def emit(label, xy, vk, forms):
+        pub = xy[0].to_bytes(L, "big") + xy[1].to_bytes(L, "big")
+        base = {"curve": on, "key": "provenance: " + label, "pub": list(pub)}
+        for f in forms:
+            if f[0] == "pt":
+                enc = vk().to_string(f[1])
+                ok, dpub, _, dc = _dec_result(lambda: VerifyingKey.from_string(enc, curve=c))
+                evs.append(dict(base, op="pt", pe=f[1], enc=list(enc), dok=ok, dpub=dpub, _cost=2))
+            elif f[0] == "der":
+                enc = vk().to_der(f[1], f[2])
+                ok, dpub, dpriv, dc = _dec_result(lambda: VerifyingKey.from_der(enc))
+                evs.append(dict(base, op="enc", kind="spki", cpe=f[2], pe=f[1], priv=[], enc=list(enc), dok=ok, dpub=dpub, dpriv=dpriv, dcurve=dc,
+                                _cost=4 + len(enc) // 8))
+            else:
+                o = vk()
+                dr, pem = o.to_der(f[1], f[2]), vk().to_pem(f[1], f[2])
+                ok, dpub, dpriv, dc = _dec_result(lambda: VerifyingKey.from_pem(pem))
+                evs.append(dict(base, op="pem", kind="spki", cpe=f[2], pe=f[1], der=list(dr), pem=list(pem), priv=[], dok=ok, dpub=dpub, dpriv=dpriv,
+                                _cost=4 + len(pem) // 6))
+    all_forms = [("pt", pe) for pe in ("raw",) + FORMS] + [("der", pe, cpe) for pe in FORMS for cpe in CPES] + [("pem", "compressed", "named_curve")]
+    few = [("pt", "raw"), ("pt", "compressed"), ("pt", "hybrid"), ("der", "uncompressed", "named_curve"), ("der", "compressed", "explicit")]
+    for label, xy, make in fac:
+        emit(label + " / fresh object per call", xy, make, all_forms)          # every encoder sees an untouched object
+        o = make()
+        emit(label + " / one object, calls in sequence", xy, lambda: o, all_forms)
+        o2 = make()
+        try:
+            o2.verify(sig, data, hashfunc=sha256)
+        except Exception:                                       # noqa: BLE001 -- most of these keys did not make the signature
+            pass
+        emit(label + " / after verify()", xy, lambda: o2, few)
+        o3 = make()
+        if hasattr(o3.pubkey.point, "scale"):
+            o3.pubkey.point.scale()
+        emit(label + " / after point.scale()", xy, lambda: o3, few)
+        o4 = make()
+        o4.pubkey.point.x()
+        o4.pubkey.point.y()
+        emit(label + " / after x() and y()", xy, lambda: o4, few)
+        o5 = make()
+        try:
+            o5.precompute(lazy=True)
+        except Exception:                                       # noqa: BLE001
+            pass
+        emit(label + " / after precompute(lazy)", xy, lambda: o5, few)
+    return evs
+
+
+# ------------------------------------------------------------------ structure-aware damage of DER key files
+def _smut_events(r, th, curve_keys):
+    """Edits of the TLV tree (harness/c19der.py) of valid key files, written back with correct lengths: members dropped /
+    duplicated / swapped / inserted, INTEGER / OID / OCTET STRING / BIT STRING contents replaced, tags changed, and pairs of
+    such edits (every drop of an optional member with every value edit; a sample of the rest)."""
+    import itertools
+    import register_crypto_plugin as plugin
+    from .. import c19der as D
+    ecdsa, SigningKey, VerifyingKey, der, curves = _lib()
+    signal.signal(signal.SIGVTALRM, _alarm)
+    evs = []
+    for cname, d in curve_keys:
+        c = _curve(cname)
+        sk = _mk_sk(cname, d)
+        vk = sk.verifying_key
+        pub, priv = list(_raw_of_vk(vk)), list(_priv_of_sk(sk))
+        decs = {"VerifyingKey.from_der": lambda b: VerifyingKey.from_der(b), "SigningKey.from_der": lambda b: SigningKey.from_der(b),
+                "Curve.from_der": lambda b: curves.Curve.from_der(b),
+                "VerifyingKey.from_pem": lambda b: VerifyingKey.from_pem(der.topem(b, "PUBLIC KEY")),
+                "SigningKey.from_pem(sec1)": lambda b: SigningKey.from_pem(der.topem(b, "EC PRIVATE KEY")),
+                "SigningKey.from_pem(pkcs8)": lambda b: SigningKey.from_pem(der.topem(b, "PRIVATE KEY")),
+                "plugin.PublicEccKeyProxy.create_from_der_fmt": lambda b: plugin.PublicEccKeyProxy.create_from_der_fmt(b),
+                "plugin.PrivateEccKeyProxy.create_from_der_fmt": lambda b: plugin.PrivateEccKeyProxy.create_from_der_fmt(b)}
+        bases = [("spki", "named_curve", ["VerifyingKey.from_der", "VerifyingKey.from_pem"], vk.to_der()),
+                 ("spki", "explicit", ["VerifyingKey.from_der", "VerifyingKey.from_pem"], vk.to_der("uncompressed", "explicit")),
+                 ("spki", "explicit", ["VerifyingKey.from_der"], vk.to_der("compressed", "explicit")),
+                 ("sec1", "named_curve", ["SigningKey.from_der", "SigningKey.from_pem(sec1)"], sk.to_der()),
+                 ("sec1", "explicit", ["SigningKey.from_der", "SigningKey.from_pem(sec1)"], sk.to_der("uncompressed", "ssleay", "explicit")),
+                 ("pkcs8", "named_curve", ["SigningKey.from_der", "SigningKey.from_pem(pkcs8)"], sk.to_der(format="pkcs8")),
+                 ("pkcs8", "explicit", ["SigningKey.from_der"], sk.to_der("compressed", "pkcs8", "explicit")),
+                 ("ecparams", "explicit", ["Curve.from_der"], c.to_der("explicit")),
+                 ("ecparams", "named_curve", ["Curve.from_der"], c.to_der())]
+        if cname == "NIST256p":
+            for b in bases[:3]:
+                b[2].append("plugin.PublicEccKeyProxy.create_from_der_fmt")
+            for b in bases[3:7]:
+                b[2].append("plugin.PrivateEccKeyProxy.create_from_der_fmt")
+        for kind, cpe, dnames, enc in bases:
+            tree = D.parse(enc)
+            eds = D.all_edits(tree)
+            # members that the grammar marks OPTIONAL: cofactor (6th member of ECParameters), the [1] publicKey; a seed may be inserted after b
+            benign = set()
+            for path in D.paths(tree):
+                lst, k = D.get(tree, path)
+                tag, cont = lst[k]
+                if tag == 0xA1:
+                    benign.add(("drop", path))
+                if (tag == 0x30 and isinstance(cont, list) and len(cont) == 6 and cont[0] == [0x02, b"\x01"] and isinstance(cont[1][1], list)
+                        and cont[1][1] and cont[1][1][0][0] == 0x06):
+                    benign.add(("drop", path + (5,)))
+                    benign.add(("seed-after", path + (2, 1)))
+            opt = [e for e in eds if (e[0].split(" ")[0], e[1]) in benign]
+            plan = [[e] for e in eds]
+            plan += [[o, e] for o in opt for e in eds if e is not o]
+            plan += [list(o2) for o2 in itertools.combinations(opt, 2)]
+            pairs = list(itertools.combinations(eds, 2))
+            plan += [list(x) for x in r.sample(pairs, min(len(pairs), 1500 if th else 200))]
+            for edit in plan:
+                m = D.apply(tree, edit)
+                if m is None or m == enc:
+                    continue
+                names = " & ".join(e[0] for e in edit)
+                is_benign = all((e[0].split(" ")[0], e[1]) in benign for e in edit)
+                for dn in (dnames if len(edit) == 1 or is_benign else dnames[:1] + [x for x in dnames[1:] if x.startswith("plugin")]):
+                    signal.setitimer(signal.ITIMER_VIRTUAL, CPU_LIMIT_S)
+                    ev = {"op": "smut", "dec": dn, "kind": kind, "cpe": cpe, "curve": c.openssl_name, "edits": names, "benign": is_benign, "data": [],
+                          "pub": pub if kind != "ecparams" else [], "priv": priv if kind in ("sec1", "pkcs8") else [], "out": "ok", "cls": "", "mro": [], "site": "",
+                          "dcurve": "", "dpub": [], "dpriv": [], "_hex": m.hex(), "_cost": 1}
+                    try:
+                        kobj = decs[dn](m)
+                        signal.setitimer(signal.ITIMER_VIRTUAL, 0)
+                        ev["data"] = list(m)
+                        ev["_cost"] = 3 + len(m) // 20
+                        if kind == "ecparams":
+                            ev["dcurve"] = kobj.openssl_name or kobj.name
+                        else:
+                            if hasattr(kobj, "to_raw_bin_fmt") or hasattr(kobj, "private_key"):       # plug-in objects
+                                kobj = getattr(kobj, "private_key", None) or kobj.public_key
+                            kvk = getattr(kobj, "verifying_key", None) or kobj
+                            ev["dcurve"] = kvk.curve.openssl_name or kvk.curve.name
+                            ev["dpub"] = list(_raw_of_vk(kvk))
+                            ev["dpriv"] = list(_priv_of_sk(kobj)) if hasattr(kobj, "privkey") else []
+                    except _CpuTimeout:
+                        ev["out"] = "timeout"
+                    except BaseException as e:                  # noqa: the class is what is being recorded
+                        signal.setitimer(signal.ITIMER_VIRTUAL, 0)
+                        ev.update(out="raise", cls=type(e).__name__, mro=[x.__name__ for x in type(e).__mro__], site=_site(e.__traceback__))
+                        if is_benign or (dn.startswith("plugin.Public") and "ValueError" not in ev["mro"]):
+                            ev["data"] = list(m)
+                    finally:
+                        signal.setitimer(signal.ITIMER_VIRTUAL, 0)
+                    evs.append(ev)
+    return evs
+
+
 # ------------------------------------------------------------------ der.py primitives
 def _prim_events(r, tier):
     ecdsa, SigningKey, VerifyingKey, der, curves = _lib()
@@ -879,6 +1062,16 @@ def _run(tier, rep, wd, st):
                 pcurves = ["NIST256p"] + r.sample([c.name for c in ws if c.name != "NIST256p"], 2)
             for evs in pool.map(_pemrep_curve, [(cn, keys[cn][0][1]) for cn in pcurves]):
                 kev.extend(evs)
+            # ---------------- key objects of every provenance / internal representation through the encoders
+            if th:
+                vcurves = [c.name for c in ws]
+            else:
+                vcurves = ["NIST256p", "SECP112r2"] + r.sample([c.name for c in ws if c.name not in ("NIST256p", "SECP112r2")], 3)
+            for evs in pool.map(_record_prov_curve, [(cn, keys[cn][0][1], "%d/c19prov/%s" % (_seed(), cn)) for cn in vcurves]):
+                kev.extend(evs)
+            # ---------------- structure-aware damage (edits of the TLV tree, single and in pairs)
+            scurves = ["NIST256p", "SECP112r1"] + (["NIST521p", "BRAINPOOLP160r1", "SECP256k1"] if th else [])
+            kev.extend(_smut_events(r, th, [(cn, keys[cn][0][1]) for cn in scurves]))
             # ---------------- the plug-in's key classes as decoders (raw and DER route, valid and damaged)
             kev.extend(_proxy_events(r, th, keys["NIST256p"]))
             # ---------------- openssl round B jobs for its own keys
@@ -1272,6 +1465,15 @@ def _run(tier, rep, wd, st):
                 key = "C19:%s:%s:%s/%s" % (e["loader"], clause, e["variant"], e["form"])
                 what = "%s on the %s text (%s) of a PEM file it reads in canonical form: %s %s" % (e["loader"], e["variant"], e["form"], clause, e["exc"])
                 data = _short(e, 2000)
+            elif op == "smut":
+                if clause == "benign-edit-not-valid-per-spec":
+                    raise MachineryError("an edit the harness takes for benign is not valid per the specification: %s on %s/%s" % (e["edits"], e["kind"], e["cpe"]))
+                if clause == "undocumented-error":
+                    key = "C19:%s:%s@%s" % (e["dec"], e["cls"], e["site"] or "?")
+                else:
+                    key = "C19:%s:%s:%s" % (e["dec"], clause, e["kind"])
+                what = "%s on a structurally edited %s/%s key file of %s (%s): %s -> %s %s" % (e["dec"], e["kind"], e["cpe"], e["curve"], e["edits"], clause, e["out"], e["cls"])
+                data = dict(_short(e, 64), input_hex=e["_hex"])
             elif op == "proxy":
                 if clause == "harness-pairing":
                     raise MachineryError("proxy event with an inconsistent paired input")
